@@ -241,6 +241,16 @@ func (c *Core) forward(bp BundleDescriptor) {
 		}
 	}
 
+	// A bundle which is retried was loaded from the store, where it is kept as received. Thus, unsupported blocks
+	// which must be removed (compare receive) are present again and need to be dropped before the transmission.
+	for i := len(bp.MustBundle().CanonicalBlocks) - 1; i >= 0; i-- {
+		cb := &bp.MustBundle().CanonicalBlocks[i]
+		if !bpv7.GetExtensionBlockManager().IsKnown(cb.TypeCode()) && cb.BlockControlFlags.Has(bpv7.RemoveBlock) {
+			bp.MustBundle().CanonicalBlocks = append(
+				bp.MustBundle().CanonicalBlocks[:i], bp.MustBundle().CanonicalBlocks[i+1:]...)
+		}
+	}
+
 	if pnBlock, err := bp.MustBundle().ExtensionBlock(bpv7.ExtBlockTypePreviousNodeBlock); err == nil {
 		// Replace the PreviousNodeBlock
 		prevEid := pnBlock.Value.(*bpv7.PreviousNodeBlock).Endpoint()
